@@ -151,7 +151,17 @@ EXTRA6 = {
     "C09": " C09.e2e also with an integer / floating literal on either side of every operator (a literal is int / float whatever stands next to it); the operator's own static type is read through the conversions `return` inserts.",
     "C06": " Constant operands of C06.sem are a symbolic constant AND each literal value a peephole would single out (0, 1, 2, 3, 4, 8, 10, 2^16, 2^30, 2^31-1, -1, -2, -4, -2^31) with the other operand symbolic; wasmsem models shr_s / shr_u / shl by constant amounts.",
 }
-for _d in (EXTRA3, EXTRA5, EXTRA6):
+EXTRA7 = {
+    "C19": " C19.writers.frame: every Pack* / Write* function and WriteTo / Encode method writes to its output and to nothing else (frame condition on the source), so an encoding does not depend on what the process wrote before.",
+    "C07": " C19.writers.frame (see C19). LOWER.adapt.sequence: the IR type of a function does not depend on the types the lowering context adapted before (two overloads keep their own signatures in the type section).",
+    "C16": " C16.link.frame: linking leaves every module's imports, functions and globals as they were, and linking the same module objects again gives the same program.",
+    "C13": " C13.swizzle.sequence / C13.drop.sequence: one visitor judges all accesses of a module; a verdict / row type does not depend on the accesses judged before.",
+    "C14": " LOWER.adapt.sequence (see C07). E2E.module-composition: 16 look-alike program blocks composed in all ordered pairs, with and without optimize: every function of the composed module has the IR of its block compiled alone.",
+    "C05": " E2E.module-composition (see C14): what a pass remembers from an earlier function of a module does not change how a later one is compiled.",
+    "C01": " E2E.module-composition (see C14).",
+    "C03": " E2E.module-composition (see C14): overload sets that grow when two blocks are composed.",
+}
+for _d in (EXTRA3, EXTRA5, EXTRA6, EXTRA7):
     for _k, _v in _d.items():
         EXTRA_TEXT[_k] = EXTRA_TEXT.get(_k, "") + _v
 GEN_TEXT = " E2E.generated.* (sampled, reported as bounded, never counted as proved): a seeded generator (contracts/gen_c.py) writes scalar-core programs -- helpers, globals, arrays, nested loops with break/continue, all operator forms -- and each is compiled by the real compiler and run by the real VM on SYMBOLIC inputs against the reference interpreter, so each holds for all inputs of its program; 64 programs in the quick tier, 1600 more in the thorough tier."
